@@ -1,7 +1,7 @@
 //! io_explore --mode blocking|async|fault|hostile : C07, C08, C09, C10.
 
 use harness::report::{self, catch, hex, Args, PropAcc, Report};
-use harness::{CapSpec, IoShape, Next, RecvOut, SendOut};
+use harness::{CapSpec, Go, IoShape, Next, RecvOut, SendOut};
 use ioeng::*;
 use refmodel::ops::Kind;
 use refmodel::tree::decode_tree;
@@ -94,6 +94,20 @@ fn large_message(d: &Desc) -> Option<Value> {
         Desc::Flex { item, .. } => big_tail(item).map(|t| Value::Flex(vec![t])),
         _ => None,
     }
+}
+
+thread_local! {
+    static RETAIN: std::cell::Cell<bool> = const { std::cell::Cell::new(false) };
+}
+fn retain_on() -> bool {
+    RETAIN.with(|r| r.get())
+}
+/// run `f` with the receiving driver's retain() choice enabled
+fn with_retain<R>(f: impl FnOnce() -> R) -> R {
+    RETAIN.with(|r| r.set(true));
+    let r = f();
+    RETAIN.with(|r| r.set(false));
+    r
 }
 
 fn with_policy<R>(p: usize, f: impl FnOnce() -> R) -> R {
@@ -327,7 +341,9 @@ fn run_receiver_blocking(s: &dyn IoShape, cap: CapSpec, stream: &[u8], faults: &
     let st = Rc::new(RefCell::new(SourceState { stream: stream.to_vec(), pos: 0, calls: 0, calls_in_op: 0, horizon_per_op: 2 * stream.len() + 16, faults: FaultState::default(), max_offered: 0 }));
     let outs: RefCell<Vec<(RecvOut, usize)>> = RefCell::new(vec![]);
     let errs = std::cell::Cell::new(0usize);
-    let limit = stream.len() + 8;
+    let just_retained = std::cell::Cell::new(false);
+    let retained: RefCell<Vec<usize>> = RefCell::new(vec![]);
+    let limit = 2 * stream.len() + 8;
     let r = catch(|| {
         let pipe = ScriptRead { st: st.clone(), cfg: faults.clone(), chunking };
         let mut ctl = |o: &RecvOut| {
@@ -337,29 +353,49 @@ fn run_receiver_blocking(s: &dyn IoShape, cap: CapSpec, stream: &[u8], faults: &
             // a receiver cannot yield more messages than there are bytes: stop a run-away one so that
             // the oracle (not the watchdog) reports it
             if outs.borrow().len() > limit {
-                return false;
+                return Go::Stop;
             }
             match o {
                 RecvOut::Msg { .. } => {
                     errs.set(0);
-                    true
+                    // the receiving side's own choice: consume the message (default) or retain() it once
+                    if retain_on() && !just_retained.get() && point(2) == 1 {
+                        just_retained.set(true);
+                        retained.borrow_mut().push(outs.borrow().len() - 1);
+                        Go::Retain
+                    } else {
+                        just_retained.set(false);
+                        Go::Next
+                    }
                 }
                 RecvOut::Read(_) => {
                     errs.set(errs.get() + 1);
-                    errs.get() < GIVE_UP
+                    if errs.get() < GIVE_UP {
+                        Go::Next
+                    } else {
+                        Go::Stop
+                    }
                 }
-                _ => false,
+                _ => Go::Stop,
             }
         };
         s.recv_blocking(Box::new(pipe), cap, &mut ctl);
     });
     let stb = st.borrow();
-    RecvRun { outs: outs.into_inner(), panic: r.err(), injected: stb.faults.injected.clone(), delivered: stb.pos, max_offered: stb.max_offered }
+    let mut outs = outs.into_inner();
+    // a retained message is handed out once more by the next recv without touching the pipe: that one
+    // repeat is not a duplicate (anything else the retained guard causes is judged like every other result)
+    for i in retained.into_inner().into_iter().rev() {
+        if i + 1 < outs.len() && outs[i + 1] == outs[i] {
+            outs.remove(i + 1);
+        }
+    }
+    RecvRun { outs, panic: r.err(), injected: stb.faults.injected.clone(), delivered: stb.pos, max_offered: stb.max_offered }
 }
 
 /// Healthy-pipe oracle: exactly the sent messages in order, then Closed.
 fn judge_receiver_exact(cx: &mut Ctx, mode: &str, cap: CapSpec, seq: &[Value], stream: &[u8], sizes: &[usize], run: &RecvRun, trace: &[(u16, u16)]) {
-    let replay = json!({"engine": "io_explore", "policy": CHUNK_POLICY.with(|c| c.get()), "mode": mode, "side": "receiver", "shape": cx.s.id(), "cap": format!("{:?}", cap), "seq": seq.iter().map(|v| format!("{:?}", v)).collect::<Vec<_>>(), "stream": hex(stream), "choices": choices_json(trace)});
+    let replay = json!({"engine": "io_explore", "policy": CHUNK_POLICY.with(|c| c.get()), "retain": retain_on(), "mode": mode, "side": "receiver", "shape": cx.s.id(), "cap": format!("{:?}", cap), "seq": seq.iter().map(|v| format!("{:?}", v)).collect::<Vec<_>>(), "stream": hex(stream), "choices": choices_json(trace)});
     if let Some(p) = &run.panic {
         let key = if p.contains(HORIZON_MSG) { format!("{}/receiver/hang", mode) } else { format!("{}/receiver/panic/{}", mode, panic_site(p)) };
         cx.violate(key, format!("{} (stream {} cap {:?} after {} results)", p, hex(stream), cap, run.outs.len()), replay);
@@ -431,6 +467,17 @@ fn mode_blocking(cx: &mut Ctx) {
                 outcomes.insert(format!("{:?}", r.outs.iter().map(|o| o.1).collect::<Vec<_>>()));
             }
             account(cx, &st, bound, stream.len(), "receiver");
+            // ---- the same, with the receiving side free to retain() each message once before consuming it
+            if !seq.is_empty() {
+                let mut rres: Vec<(Vec<(u16, u16)>, RecvRun)> = vec![];
+                let st = with_retain(|| explore(Some(dev), max_execs, || run_receiver_blocking(s, cap, &real, &FaultCfg::off(), true), |t, r| rres.push((t.to_vec(), r))));
+                with_retain(|| {
+                    for (t, r) in &rres {
+                        judge_receiver_exact(cx, "blocking", cap, seq, &real, &sizes, r, t);
+                    }
+                });
+                account(cx, &st, Some(dev), stream.len(), "receiver_retain");
+            }
             cx.acc.distinct.insert(format!("{}:{:?}:{}:{}", cx.s.id(), cap, seq.len(), outcomes.len().min(9)));
             if cx.acc.samples.len() < 3 && seq.len() == 2 {
                 cx.acc.sample(json!({"shape": cx.s.id(), "cap": format!("{:?}", cap), "messages": seq.iter().map(|v| format!("{:?}", v)).collect::<Vec<_>>(), "stream": hex(&real), "write_scripts": results.len(), "read_scripts": rres.len(), "bound": format!("{:?}", bound)}));
@@ -547,6 +594,7 @@ fn run_async(s: &dyn IoShape, cap: CapSpec, seq: &[Value], pipe_cap: usize, spur
     let pipe = APipe::new(pipe_cap, spurious);
     let sends: Rc<RefCell<Vec<(usize, SendOut, usize, usize)>>> = Rc::new(RefCell::new(vec![]));
     let recvs: Rc<RefCell<Vec<RecvOut>>> = Rc::new(RefCell::new(vec![]));
+    let retained: Rc<RefCell<Vec<usize>>> = Rc::new(RefCell::new(vec![]));
     let total: usize = seq.len();
     let horizon = 64 + 8 * (seq.len() + 1) * 48 + 40 * seq.len() * 16;
     let r = catch(|| {
@@ -579,21 +627,34 @@ fn run_async(s: &dyn IoShape, cap: CapSpec, seq: &[Value], pipe_cap: usize, spur
             }
         });
         let errs = Rc::new(std::cell::Cell::new(0usize));
+        let just_retained = std::cell::Cell::new(false);
+        let ret1 = retained.clone();
         let rctl = Box::new(move |o: &RecvOut| {
             r1.borrow_mut().push(o.clone());
             if r1.borrow().len() > 64 {
-                return false;
+                return Go::Stop;
             }
             match o {
                 RecvOut::Msg { .. } => {
                     errs.set(0);
-                    true
+                    if retain_on() && !just_retained.get() && point(2) == 1 {
+                        just_retained.set(true);
+                        ret1.borrow_mut().push(r1.borrow().len() - 1);
+                        Go::Retain
+                    } else {
+                        just_retained.set(false);
+                        Go::Next
+                    }
                 }
                 RecvOut::Read(_) => {
                     errs.set(errs.get() + 1);
-                    errs.get() < GIVE_UP
+                    if errs.get() < GIVE_UP {
+                        Go::Next
+                    } else {
+                        Go::Stop
+                    }
                 }
-                _ => false,
+                _ => Go::Stop,
             }
         });
         let st = s.send_async(Box::new(AWrite { p: p1, cfg: wf.clone() }), cap, seq, Kind::Iter, sctl);
@@ -609,7 +670,12 @@ fn run_async(s: &dyn IoShape, cap: CapSpec, seq: &[Value], pipe_cap: usize, spur
         Err(p) => (ExecEnd::AllDone, 0, Some(p)),
     };
     let sends = sends.borrow().clone();
-    let recvs = recvs.borrow().clone();
+    let mut recvs = recvs.borrow().clone();
+    for i in retained.borrow().iter().rev() {
+        if i + 1 < recvs.len() && recvs[i + 1] == recvs[*i] {
+            recvs.remove(i + 1);
+        }
+    }
     AsyncRun { end, polls, sends, recvs, panic, pendings: p.pendings, injected: inj, written: p.all_written.clone() }
 }
 
@@ -617,7 +683,7 @@ fn judge_async(cx: &mut Ctx, cap: CapSpec, pipe_cap: usize, seq: &[Value], run: 
     let d = cx.d.clone();
     let blen = buf_len(cap, &d);
     let (stream, mask, sizes) = stream_of(&d, seq, blen);
-    let replay = json!({"engine": "io_explore", "policy": CHUNK_POLICY.with(|c| c.get()), "mode": "async", "shape": cx.s.id(), "cap": format!("{:?}", cap), "pipe_cap": pipe_cap, "seq": seq.iter().map(|v| format!("{:?}", v)).collect::<Vec<_>>(), "choices": choices_json(trace)});
+    let replay = json!({"engine": "io_explore", "policy": CHUNK_POLICY.with(|c| c.get()), "retain": retain_on(), "mode": "async", "shape": cx.s.id(), "cap": format!("{:?}", cap), "pipe_cap": pipe_cap, "seq": seq.iter().map(|v| format!("{:?}", v)).collect::<Vec<_>>(), "choices": choices_json(trace)});
     if let Some(p) = &run.panic {
         cx.violate(format!("async/panic/{}", panic_site(p)), format!("panic: {} (seq {:?} cap {:?} pipe {})", p, seq, cap, pipe_cap), replay);
         return;
@@ -706,6 +772,16 @@ fn mode_async(cx: &mut Ctx) {
                     }
                 }
                 account(cx, &st, bound, stream.len(), "async");
+                if !seq.is_empty() {
+                    let mut res: Vec<(Vec<(u16, u16)>, AsyncRun)> = vec![];
+                    let st = with_retain(|| explore(Some(dev), max_execs, || run_async(s, cap, seq, pc, 2, &FaultCfg::off(), &FaultCfg::off()), |t, r| res.push((t.to_vec(), r))));
+                    with_retain(|| {
+                        for (t, r) in &res {
+                            judge_async(cx, cap, pc, seq, r, t);
+                        }
+                    });
+                    account(cx, &st, Some(dev), stream.len(), "async_retain");
+                }
                 cx.acc.count("executions_with_pending", pend);
                 cx.acc.distinct.insert(format!("{}:{:?}:{}:{}", cx.s.id(), cap, pc, seq.len()));
                 if cx.acc.samples.len() < 3 && seq.len() == 2 && pc < s_ {
@@ -1082,7 +1158,11 @@ fn run_receiver_async_only(s: &dyn IoShape, cap: CapSpec, stream: &[u8]) -> (Vec
     let r = catch(|| {
         let rctl = Box::new(move |o: &RecvOut| {
             r1.borrow_mut().push(o.clone());
-            r1.borrow().len() <= 64 && matches!(o, RecvOut::Msg { .. })
+            if r1.borrow().len() <= 64 && matches!(o, RecvOut::Msg { .. }) {
+                Go::Next
+            } else {
+                Go::Stop
+            }
         });
         let rt = s.recv_async(Box::new(ARead { p: pipe.clone(), cfg: FaultCfg::off() }), cap, rctl);
         run_tasks(vec![Some(rt)], horizon)
@@ -1237,6 +1317,7 @@ fn replay_case(shapes: &[&'static dyn IoShape], case: &serde_json::Value) -> i32
     }
     pool.extend(large_message(&d));
     CHUNK_POLICY.with(|c| c.set(case["policy"].as_u64().unwrap_or(0) as usize));
+    RETAIN.with(|r| r.set(case["retain"].as_bool().unwrap_or(false)));
     let seq: Vec<Value> = case["seq"].as_array().map(|a| a.iter().filter_map(|x| pool.iter().find(|v| format!("{:?}", v) == x.as_str().unwrap_or("")).cloned()).collect()).unwrap_or_default();
     let thorough = true;
     let mut msgs = pick_messages(&d, thorough);
